@@ -58,9 +58,9 @@ def parse_template(tpl):
                 if d.startswith('//@attr '):
                     f.attrs.append(d[len('//@attr '):])
                     cur = None
-                elif d.startswith('//@subst '):
-                    m = re.match(r'//@subst /(.*)/ => (.*)$', d)
-                    f.substs.append((m.group(1), m.group(2)))
+                elif d.startswith('//@subst ') or d.startswith('//@subst? '):
+                    m = re.match(r'//@subst\??\s+/(.*)/ => (.*)$', d)
+                    f.substs.append((m.group(1), m.group(2), d.startswith('//@subst?')))
                     cur = None
                 elif d.startswith('//@contract'):
                     cur = f.contract
@@ -151,11 +151,13 @@ def build_fn(f, sources, fnmeta):
         stripped = X.normalize_expanded(stripped)
     ctx = T.Ctx(o['name'], o.get('xlate', 'verbatim'), o.get('st'), fnmeta['callees'])
     sig, body = T.translate(stripped, ctx, [' '.join(x.strip() for x in c) for c in f.closures])
-    for pat, rep in f.substs:
+    for pat, rep, optional in f.substs:
         body2, n = re.subn(pat, rep, body, flags=re.S)
         if n == 0:
             sig2, n2 = re.subn(pat, rep, sig, flags=re.S)
             if n2 == 0:
+                if optional:
+                    continue
                 raise X.AnchorLost('subst /%s/ does not match in %s' % (pat, o['name']))
             sig = sig2
             ctx.hit('subst', n2)
@@ -221,9 +223,9 @@ def build_frag(f, sources, fnmeta):
     end = stmt_end_line(lines, hits[0])
     frag = '\n'.join(lines[hits[0]:end + 1])
     ctx = T.Ctx(o['name'], 'plain', None, fnmeta['callees'])
-    for pat, rep in f.substs:
+    for pat, rep, optional in f.substs:
         frag, n = re.subn(pat, rep, frag, flags=re.S)
-        if n == 0:
+        if n == 0 and not optional:
             raise X.AnchorLost('subst /%s/ does not match in fragment %s' % (pat, o['name']))
         ctx.hit('subst', n)
     sig = 'fn %s(%s) -> (r: %s)' % (o['name'], o.get('params', ''), o['ret'])
